@@ -123,7 +123,7 @@ CLAIMED = {
         technique='Coq proof (induction over strings) + extracted-model correspondence + CLI subprocess runs',
         design='5/C15'),
     'C10': dict(
-        text='Theorems for ALL fragment lists and ALL limits about a Gallina model of the Markdown renderer\'s wrapping core: every produced line fits the '
+        text='CLAUSES 1 AND 4 PROVED for top-level paragraphs of plain words and EVERY limit (whole pipeline model: parse, render with the limit, parse again, render to HTML / reflow again): the reflowed text is one paragraph whose lines are groups of the words, its HTML is the original with newlines where some spaces were, reflowing again gives the same lines. Theorems for ALL fragment lists and ALL limits about a Gallina model of the Markdown renderer\'s wrapping core: every produced line fits the '
              'limit or is one single unbreakable word; the lines are groups of exactly the words (none dropped, added or reordered); the result depends on '
              'the fragments only through their words; code/HTML blocks, tables, ATX headings are rendered independently of the limit (all trees); quotes and '
              'list items shrink the budget by exactly the width of the prefix they add (all trees). Model tied by the real classmethods on synthetic '
